@@ -2,7 +2,7 @@
 import re
 from . import terms as T
 from .facts import Facts, strip_generics, type_head, callee_key, walk
-from .vflow import VF, Ref, Clos, Tup, Seq, Place, keyrepr, mk_comp, index_term, field_term, upd_term
+from .vflow import VF, Ref, Clos, Tup, Seq, Place, keyrepr, mk_comp, index_term, field_term, upd_term, seq_len
 from .semtab import SemTab, USED, CLASS
 
 
